@@ -9,10 +9,10 @@ VERIF = build.VERIF
 
 class Config:
     def __init__(self, name, harness, args, max_paths=32, tol=fpsym.TOL, timeout=120, maxsteps=None, solver_timeout_ms=20000,
-                 defines='', expect_nonvacuous=True, note=''):
+                 defines='', expect_nonvacuous=True, note='', strategy='global'):
         self.name, self.harness, self.args = name, harness, [str(a) for a in args]
         self.max_paths, self.tol, self.timeout, self.maxsteps, self.solver_timeout_ms = max_paths, tol, timeout, maxsteps, solver_timeout_ms
-        self.defines, self.expect_nonvacuous, self.note = defines, expect_nonvacuous, note
+        self.defines, self.expect_nonvacuous, self.note, self.strategy = defines, expect_nonvacuous, note, strategy
 
 
 def concrete_obl_fails(o, tol):
@@ -51,7 +51,7 @@ def run_config(prop, cfg, tier, seed):
         res['inconclusive'].append({'what': 'build failed', 'detail': str(e)[-3000:]}); res['wall'] = time.time() - t0; return res
     work = os.path.join(build.BUILD, 'work', prop, re.sub(r'[^\w.-]', '_', cfg.name))
     shutil.rmtree(work, ignore_errors=True); os.makedirs(work)
-    ex = fpsym.Explorer(exe, plain, cfg.args, work, cfg.max_paths, cfg.tol, cfg.timeout, cfg.maxsteps, cfg.solver_timeout_ms, seed)
+    ex = fpsym.Explorer(exe, plain, cfg.args, work, cfg.max_paths, cfg.tol, cfg.timeout, cfg.maxsteps, cfg.solver_timeout_ms, seed, cfg.strategy)
     first = {'done': False}
 
     def handle(rec, info, dec, k, inputs):
@@ -66,8 +66,10 @@ def run_config(prop, cfg, tier, seed):
         res['max_atoms'] = max(res['max_atoms'], len(rec.pc)); res['symbols'] = max(res['symbols'], len(rec.syms))
         if rec.status == 'assumed_away':
             res['assumed_away'] += 1; return
-        if rec.d['escapes'] or rec.d['nan_true']:
-            res['inconclusive'].append({'what': 'escape of symbolic data' if rec.d['escapes'] else 'NaN guard true on symbolic data', 'detail': rec.d.get('escape_what', ''), 'path': k}); return
+        if rec.d['escapes']:
+            res['inconclusive'].append({'what': 'escape of symbolic data', 'detail': rec.d.get('escape_what', ''), 'path': k}); return
+        if rec.d['nan_true']:
+            res['nonfinite_classes'] = res.get('nonfinite_classes', 0) + 1; return
         for cond, label in rec.checks:
             res['checks'] += 1
             if not cond:
@@ -78,6 +80,9 @@ def run_config(prop, cfg, tier, seed):
             occ = seen_labels.get(o[6], 0); seen_labels[o[6]] = occ + 1
             try:
                 d = dec.decide(o)
+            except fpsym.NonFinite as e:
+                res['nonfinite_classes'] = res.get('nonfinite_classes', 0) + 1; res['obligations'] -= 1
+                break
             except (fpsym.Inconclusive, fpsym.TooBig) as e:
                 d = {'verdict': 'inconclusive', 'method': str(e), 'label': o[6], 'symbolic': True}
             res['methods'][d.get('method', '?')] = res['methods'].get(d.get('method', '?'), 0) + 1
@@ -86,6 +91,8 @@ def run_config(prop, cfg, tier, seed):
                 if d.get('symbolic'): res['nontrivial'] += 1
                 if len(res['samples']) < 3 and d.get('symbolic'):
                     res['samples'].append({'config': cfg.name, 'path': k, 'obligation': d['label'], 'method': d['method'], 'residual_monomials': d.get('monomials'), 'degree': d.get('degree'), 'pc_atoms': len(rec.pc)})
+            elif d['verdict'] == 'violated' and d['kind'] == 'nonconst':
+                res['inconclusive'].append({'what': 'vacuous: witness expression does not depend on any symbol', 'label': o[6], 'path': k})
             elif d['verdict'] == 'violated':
                 res['problems'].append({'kind': 'obl', 'label': o[6], 'occ': occ, 'okind': d['kind'], 'inputs': d.get('inputs', rec.inputs()), 'path': k, 'method': d['method']})
             else:
@@ -103,7 +110,7 @@ def run_config(prop, cfg, tier, seed):
         ex.run(handle)
     except Exception as e:
         res['inconclusive'].append({'what': 'driver exception', 'detail': traceback.format_exc()[-2000:]})
-    res['coverage_complete'] = ex.coverage_complete; res['bands'] = ex.bands; res['cover_unknown'] = ex.cover_unknown
+    res['coverage_complete'] = ex.coverage_complete; res['bands'] = ex.bands; res['cover_unknown'] = ex.cover_unknown; res['infeasible_branches'] = ex.infeasible; res['diverged'] = ex.diverged
     res['stats'] = ex.stats
     # replay of every problem on the plain (un-instrumented) build
     for p in res['problems']:
@@ -242,6 +249,7 @@ def write_evidence(prop, tier, seed, results, meta, wall, nviol, errors, known_i
         'states': max(1, sum(r['paths'] for r in results)), 'transitions': max(1, sum(r.get('stats', {}).get('runs', 0) for r in results)),
         'coverage_complete_configs': sum(1 for r in results if r['coverage_complete']),
         'classes_assumed_away': sum(r['assumed_away'] for r in results),
+        'classes_outside_claim_nonfinite': sum(r.get('nonfinite_classes', 0) for r in results),
         'rounding_boundary_bands': sum(r.get('bands', 0) for r in results),
         'queries_discharged': stats.get('queries', 0), 'solver_time_s': round(stats.get('solver_s', 0.0), 2),
         'native_runs': stats.get('runs', 0), 'native_run_time_s': round(stats.get('run_s', 0.0), 2),
